@@ -40,4 +40,4 @@ def generate_core(rng, tier):
 def generate(rng, tier):
     """the component-level cases, then the clause seen through the whole request/reply pipeline"""
     import pipeline, focus
-    return generate_core(rng, tier) + focus.probe_reset_cases(rng, 300 if tier == 'thorough' else 20) + pipeline.cases(rng, 300 if tier == 'thorough' else 20, nops=12)
+    return generate_core(rng, tier) + focus.probe_reset_cases(rng, 300 if tier == 'thorough' else 20) + __import__('C12').conn_cases(rng, 200 if tier == 'thorough' else 16) + pipeline.cases(rng, 300 if tier == 'thorough' else 20, nops=12)
